@@ -88,7 +88,7 @@ def items(tier):
         sp["tasks"][0]["progress"] = 0.5
         for aa in (False, True):
             out.append((sp, {"rule": "TSLACK", "absence": [0, 2], "auto_abs": aa, "max_time": F.seq_bound(sp) + 10}))
-    for sp in F.rule_sensitive_specs():
+    for sp in F.rule_sensitive_specs() + [F.idle_component_spec(), F.shared_child_spec(), F.float_noise_spec()] + F.three_level_product_specs():
         out.append((sp, {"rule": "TSLACK", "max_time": F.seq_bound(sp) + 8}))
     for sp in F.fac_specs(tier):
         out.append((sp, {"rule": "TSLACK", "max_time": F.seq_bound(sp) + 8}))
